@@ -75,6 +75,9 @@ func newScreen(wd, ht int) tcell.Screen {
 	for _, n := range []string{"onKeyEvent", "onMouseClick", "onMouseMove", "onFocus", "onPaste"} {
 		js.Global().Delete(n)
 	}
+	if realPage {
+		js.Global().Call("__reload")
+	}
 	s, err := tcell.NewTerminfoScreen()
 	if err != nil {
 		panic(err)
@@ -214,6 +217,15 @@ func (d *dsys) Apply(i int) (sig, desc string) {
 			return "wasm-no-show", fmt.Sprintf("%v did not end with exactly one show() call into JavaScript (%d)", o, pg.shows-shows)
 		}
 		if m := d.compare(o, full); m != "" {
+			return "wasm-" + strings.Fields(m)[0], fmt.Sprintf("after %v: %s", o, m)
+		}
+		if m := pageCompare(d.sh.W, d.sh.H, func(x, y int) bool {
+			if x == 0 {
+				return false
+			}
+			_, pw := shadow.Shown(d.sh.At(x-1, y).R)
+			return pw == 2
+		}); m != "" {
 			return "wasm-" + strings.Fields(m)[0], fmt.Sprintf("after %v: %s", o, m)
 		}
 		for k := range d.sh.Cells {
@@ -806,12 +818,19 @@ func main() {
 	w.R.Rule = "the package is compiled for GOOS=js GOARCH=wasm from the current tree (the check's build step; a compile error is reported with the compiler output); inside the wasm program under Node, with recording stand-ins for tcell.js: BFS (depth 4, thorough 5) over draw histories (wide-rune/combining/control alphabet 4x1, five-style alphabet 2x2 incl. basic, 256-palette and RGB colours, attributes, underline style/colour) comparing the page grid rebuilt from drawCell calls with the shadow model after every Show/Sync and requiring drawn cells to be changed cells; every name of WebKeyNames and six printable keys x 16 modifier combinations, modifier-only keys, both mouse callbacks x 4 button codes x 8 modifier sets x 8 enabled-flag sets, paste and focus callbacks enabled and disabled; all 340 orders of Suspend/Resume/SetSize/Fini up to length 4, each on a fresh screen, a call that returns with the screen lock held being detected by probing the lock (no wall clock); all sequences up to length 4 (5) over EnableMouse(all|buttons)/DisableMouse/EnablePaste/DisablePaste/EnableFocus/Suspend/Resume with key, click, motion, paste and focus callbacks probed after every step at which the screen is running. distinct_nontrivial = input cases + lifecycle sequences + draw states"
 	w.R.Assumptions = []string{"the JavaScript side is replaced by recording functions installed from Go (webfiles/tcell.js itself is not executed)", "default/reset colours and a wide rune in the last column are not fixed by the statement for this backend and are not compared", "Ctrl-letter mapping follows the backend's documented special case (Ctrl alone + letter => KeyCtrlX)"}
 	install()
+	if ok, why := loadPage(); ok {
+		realPage = true
+		w.R.Scenarios["page_script_executed"] = 1
+	} else {
+		w.Note("webfiles/tcell.js is not executed (%s): the recording stand-ins are the page", why)
+	}
 	if *hc.Replay != "" {
 		fmt.Println("replay: see the history in the replay file; re-run ./vc C19")
 		return
 	}
 	draws()
 	inputs()
+	pageInputs()
 	lifecycle()
 	modes()
 	fullQueue()
